@@ -243,6 +243,15 @@ Definition settled (s : lstate) : bool := is_nil (pend s) && (count_who WAdj (wq
     realCapacity, minus the deltas not yet executed, plus the queued shrinks *)
 Definition applied_cap (s : lstate) : Z := real s - zsum (pend s) + qshr (wq (ws s)).
 
+(** vocabulary of the theorems (definitions only) *)
+Definition wsum (l : list waiter) : Z := fold_right (fun w a => snd w + a) 0 l.
+(** SetMaxConnection takes a uint32 *)
+Definition label_ok (l : label) : Prop := match l with LSetMax n => 0 <= n | _ => True end.
+Definition only_shrinks (p : list Z) : Prop := Forall (fun d => d <= 0) p.
+Definition shrink_at_head (s : lstate) : Prop := exists n t, wq (ws s) = (WAdj, n) :: t.
+(** the state reached from NewLimitListener(_, n) (maxCapacity = sz) by a label sequence *)
+Definition reach (sz n : Z) (ls : list label) : lstate := lrun ideal (linit ideal sz n) ls.
+
 (** * MQTT broker connection cap *)
 
 (** connection ids are [N]; client ids are strings *)
